@@ -949,6 +949,19 @@ func (d *stat) settle() {
 			dir = "above"
 		}
 		cause := "no-reservation-held"
+		// pending-disruption entries in Karpenter's accounting vs. candidates of queued commands that still exist
+		_, _, pend := d.e.Cluster.NodePoolState.GetNodeCount(p)
+		existingCandidates := 0
+		for _, cmd := range d.queue.GetCommands() {
+			for _, c := range cmd.Candidates {
+				if c.NodePool.Name == p && d.claim(c.NodeClaim.Name) != nil {
+					existingCandidates++
+				}
+			}
+		}
+		if pend > existingCandidates {
+			cause = "stale-pending-disruption-entry"
+		}
 		if res := reservedOf(d.e.Cluster.NodePoolState); res[p] > 0 {
 			cause = "leaked-reservation" // nothing is in flight, yet the pool's reservation counter is positive
 		}
@@ -1027,13 +1040,15 @@ func runStatic(r *mon.Report, tier string, idx, ord int, rng *rand.Rand) {
 	e.Provider.Policy = "random"
 	d.allMethods = rng.Intn(4) == 0
 	shape := "random"
-	switch ord % 6 {
+	switch ord % 8 {
 	case 1:
 		shape = "last-claim-finalises-during-create"
 	case 3:
 		shape = "drift-while-peer-finalises"
 	case 5:
 		shape = "drift-start-fails-then-scale-up"
+	case 7:
+		shape = "drift-candidate-finalises-during-start"
 	}
 	npools := 1 + rng.Intn(2)
 	if shape != "random" {
@@ -1071,7 +1086,7 @@ func runStatic(r *mon.Report, tier string, idx, ord int, rng *rand.Rand) {
 			replicas = int64(2 + rng.Intn(3))
 			limit = replicas + []int64{1, 1, 2}[rng.Intn(3)]
 			budget = "100%"
-		case "drift-start-fails-then-scale-up":
+		case "drift-start-fails-then-scale-up", "drift-candidate-finalises-during-start":
 			replicas = int64(1 + rng.Intn(3))
 			limit = replicas + int64(1+rng.Intn(2))
 			budget = "100%"
@@ -1144,6 +1159,8 @@ func runStatic(r *mon.Report, tier string, idx, ord int, rng *rand.Rand) {
 		d.shapeDriftPeer()
 	case "drift-start-fails-then-scale-up":
 		d.shapeDriftStartFails()
+	case "drift-candidate-finalises-during-start":
+		d.shapeCandidateFinalises()
 	}
 	d.hookOn.Store(false)
 	d.settle()
@@ -1374,5 +1391,57 @@ func (d *stat) randomStepNoRestart(i int) {
 		}
 		d.randomStepAt(i, x)
 		return
+	}
+}
+
+// shapeCandidateFinalises: a drifted claim is deleted by the user; the disruption controller (whose view still
+// lags) picks it as a drift candidate, and the claim finishes terminating while markDisrupted is in flight.
+// Afterwards the pool is scaled up to its limit.
+func (d *stat) shapeCandidateFinalises() {
+	e := d.e
+	pool := d.pools[0]
+	d.hookPct = 0
+	names := e.ClaimNames()
+	if len(names) == 0 {
+		return
+	}
+	np := d.pool(pool)
+	lim, _ := nodeLimit(np)
+	cand := names[d.rng.Intn(len(names))]
+	e.Provider.Drift[cand] = cloudprovider.DriftReason("CloudDrift")
+	d.stepNCDisruption(cand)
+	d.fullSync()
+	d.externalDelete(cand) // the watch event for the deletionTimestamp is still in flight
+	sc := &scripted{at: -1, f: func() {
+		d.step("  candidate %s finishes terminating while markDisrupted is in flight", cand)
+		d.finalizeAndNotify(cand)
+	}}
+	how := ""
+	switch d.rng.Intn(3) {
+	case 0:
+		sc.pred, how = func(verb string, obj any) bool { _, ok := obj.(*corev1.Node); return ok && verb == "patch" }, "at the taint patch"
+	case 1:
+		sc.pred, how = func(verb string, obj any) bool {
+			nc, ok := obj.(*v1.NodeClaim)
+			return ok && verb == "get" && nc != nil
+		}, "at the first NodeClaim read"
+	default:
+		sc.at = d.rng.Intn(16)
+		how = fmt.Sprintf("at hooked call %d", sc.at)
+	}
+	d.script = []*scripted{sc}
+	d.scriptAt = 0
+	d.r.Inc("static_shape_candidate_finalises")
+	d.step("disruption reconcile, candidate %s terminates %s", cand, how)
+	d.stepDisrupt()
+	d.script = nil
+	d.countCheck("after shape candidate-finalises", "")
+	d.fullSync()
+	d.editReplicas(pool, lim)
+	d.setSig("scale-up")
+	d.hookPct = 10
+	for i := 0; i < 4; i++ {
+		d.randomStepNoRestart(100 + i)
+		d.countCheck(fmt.Sprintf("after step %d", 100+i), "")
 	}
 }
